@@ -55,7 +55,7 @@ def eval_ensures_all(ex, ctx, st, c, args, result, old_heap):
     for name, fdef in c.ensures_clauses:
         conj.append((name, calls.eval_spec_bool(ex, ctx, st, (c.source_scope, fdef), list(args) + [result], old_heap,
                                                 base_specs=calls.contract_base(c),
-                                                arg_types=calls.contract_types(ex, c, True))))
+                                                arg_types=calls.contract_types(ex, c, True), as_goal=True)))
     return conj
 
 
@@ -135,12 +135,12 @@ def verify_function(reg, sources, key, canary=True):
         fr0 = Frame({}, None, scope, qual)
         st.frames = [fr0]
         if c.requires is not None:
-            if "pre" not in entry_memo:
+            if True:
                 entry_memo["pre"] = calls.eval_spec_bool(ex, ctx, st, (c.source_scope, c.requires), args,
                                                          arg_types=calls.contract_types(ex, c))
             ctx.assume(entry_memo["pre"], f"requires:{key}")
         if c.assume_entry is not None:
-            if "ent" not in entry_memo:
+            if True:
                 entry_memo["ent"] = calls.eval_spec_bool(ex, ctx, st, (c.source_scope, c.assume_entry), args,
                                                          base_specs=calls.contract_base(c),
                                                          arg_types=calls.contract_types(ex, c))
